@@ -539,13 +539,15 @@ def opCancel (j : Json) : R Json := do
     the idle timer may only fire, at or after the deadline armed by the latest renewal / re-arm
     (`Keepalive.rstep?`); every renewal of the read deadline consumes one earlier peer activity (the
     establishment of a connection counts as one).  `disarm` marks a moment after which read failures
-    are expected for another reason (local close, the idle timer closed the socket). -/
+    are expected for another reason (local close, the idle timer closed the socket); that stays so
+    until the next connection, whatever the reader goroutine logs in between. -/
 def opKeepalive (j : Json) : R Json := do
   let T ← nat j "timeout_us"
   let slack := natD j "slack_us" 0
   let mut s : Keepalive.RSt := { deadline := 0 }
   let mut armed := false
   let mut idleArmed := false
+  let mut closedLocally := false   -- the socket of the current connection was closed by this endpoint itself
   let mut credits : Nat := 1
   let mut i : Nat := 0
   let refuse (i : Nat) (why : String) : Json := Json.mkObj [("accepted", false), ("refusedAt", (i : Json)), ("why", why)]
@@ -560,7 +562,8 @@ def opKeepalive (j : Json) : R Json := do
       if credits = 0 then
         return refuse i s!"the read deadline was renewed at {t}us although no peer activity had arrived since the previous renewal"
       match Keepalive.rstep? T slack s (.renew t) with
-      | some s' => s := s'; credits := credits - 1; armed := true
+      -- a renewal logged after the local close (the reader raced the main loop) re-arms nothing
+      | some s' => s := s'; credits := credits - 1; armed := !closedLocally
       | none => return refuse i "renew refused"
     | "arm" =>
       match Keepalive.rstep? T slack s (.arm t) with
@@ -571,9 +574,9 @@ def opKeepalive (j : Json) : R Json := do
         match Keepalive.rstep? T slack s (.idleFire t) with
         | some s' => s := s'
         | none => return refuse i s!"the idle timer fired at {t}us, {s.idleDl - t}us before it was due ({s.idleDl}us)"
-      armed := false
-    | "newconn" => armed := false; credits := 1
-    | "disarm" => armed := false
+      armed := false; closedLocally := true
+    | "newconn" => armed := false; credits := 1; closedLocally := false
+    | "disarm" => armed := false; closedLocally := true
     | "readFail" =>
       if armed then
         match Keepalive.rstep? T slack s (.readFail t) with
